@@ -226,3 +226,29 @@ fn parse_dns_server(entry: &str) -> std::io::Result<SocketAddr> {
         format!("invalid DNS server '{}'", entry),
     ))
 }
+
+/// Hooks for the verification harness: names that cannot be resolved offline, and
+/// "beyond the cache lifetime" without a real 60 s wait (the cache uses `std::time::Instant`).
+#[cfg(feature = "verif")]
+pub mod verif_api {
+    use super::*;
+
+    /// Insert an entry exactly as a successful lookup would (addresses carry the port of the
+    /// request that filled the entry).
+    pub async fn seed(host: &str, addresses: Vec<SocketAddr>) {
+        DNS_CACHE.insert(host.to_string(), addresses).await;
+    }
+
+    /// Make the entry of `host` (if any) expired.
+    pub async fn expire(host: &str) {
+        let mut cache = DNS_CACHE.inner.write().await;
+        if let Some(entry) = cache.get_mut(host) {
+            entry.expires_at = Instant::now() - Duration::from_secs(1);
+        }
+    }
+
+    /// Drop every entry.
+    pub async fn clear() {
+        DNS_CACHE.clear().await;
+    }
+}
